@@ -78,7 +78,7 @@ def ensure_xa():
 def _cmake_inputs_hash(root):
     h = hashlib.sha256()
     files = []
-    for pat in ("CMakeLists.txt", "cmake/*", "*.in", "*.cmake.in", "src/CMakeLists.txt",
+    for pat in ("CMakeLists.txt", "cmake/*", "*.in", "*.cmake.in", "configure.ac", "version.incl", "src/CMakeLists.txt",
                 "src/*.in", "src/xercesc/util/*.in", "src/xercesc/util/*.cmake.in",
                 "samples/CMakeLists.txt", "tests/CMakeLists.txt", "doc/CMakeLists.txt"):
         files += glob.glob(os.path.join(root, pat))
